@@ -41,6 +41,10 @@ type Decoded struct {
 	// gohcl in two passes: block structs with a remain body, then the remain bodies
 	TwoVal string
 	TwoErr bool
+	// hcldec in two passes: PartialDecode of the top-level arguments, then Decode of what it
+	// left over against the block specs
+	PDVal string
+	PDErr bool
 }
 
 func diagSummaries(d hcl.Diagnostics) []string {
@@ -157,6 +161,33 @@ func Decode(s *Schema, r *Rendered) (d *Decoded) {
 		d.TwoVal = strings.Join(parts, "|")
 	}()
 
+	// two-pass hcldec: the arguments first, the blocks from the leftovers
+	func() {
+		top, ok := s.Spec.(hcldec.ObjectSpec)
+		if !ok {
+			return
+		}
+		first, rest := hcldec.ObjectSpec{}, hcldec.ObjectSpec{}
+		for name, sp := range top {
+			if _, isAttr := sp.(*hcldec.AttrSpec); isAttr {
+				first[name] = sp
+			} else {
+				rest[name] = sp
+			}
+		}
+		v1, remain, d1 := hcldec.PartialDecode(body, first, ctx)
+		if d1.HasErrors() {
+			d.PDErr = true
+			return
+		}
+		v2, d2 := hcldec.Decode(remain, rest, ctx)
+		if d2.HasErrors() {
+			d.PDErr = true
+			return
+		}
+		d.PDVal = v1.GoString() + " + " + v2.GoString()
+	}()
+
 	if len(files) >= 2 {
 		var bodies []hcl.Body
 		for _, f := range files {
@@ -256,6 +287,12 @@ func Compare(s *Schema, orig, rw *Decoded, skipGohclValue bool) []Mismatch {
 			fmt.Sprintf("decoding in two passes (block labels, then the rest of each block body): original has error = %v, rewrite = %v", orig.ParseErr || orig.TwoErr, rw.ParseErr || rw.TwoErr)})
 	} else if !orig.ParseErr && !orig.TwoErr && !skipGohclValue && orig.TwoVal != rw.TwoVal {
 		out = append(out, Mismatch{"value", "gohcl-two-pass", "-", "two-pass gohcl value differs: original " + orig.TwoVal + ", rewrite " + rw.TwoVal})
+	}
+	if (orig.ParseErr || orig.PDErr) != (rw.ParseErr || rw.PDErr) {
+		out = append(out, Mismatch{"has-error", "hcldec-two-pass", "-",
+			fmt.Sprintf("decoding in two passes (PartialDecode of the arguments, then Decode of the leftovers against the blocks): original has error = %v, rewrite = %v", orig.ParseErr || orig.PDErr, rw.ParseErr || rw.PDErr)})
+	} else if !orig.ParseErr && !orig.PDErr && orig.PDVal != rw.PDVal {
+		out = append(out, Mismatch{"value", "hcldec-two-pass", "-", "two-pass hcldec value differs: original " + orig.PDVal + ", rewrite " + rw.PDVal})
 	}
 	if orig.hasErrGo() != rw.hasErrGo() {
 		out = append(out, errMismatch("gohcl", orig.hasErrGo(), append(orig.ParseDiags, orig.GoDiags...), append(rw.ParseDiags, rw.GoDiags...)))
